@@ -470,7 +470,7 @@ func (n *Node) Text(prec int) string {
 	case KRec:
 		return wrap(0, n.Kids[0].Text(0)+" //{"+strings.Join(n.Labels, ",")+"} "+n.Kids[1].Text(1))
 	case KThrow:
-		return "%{" + n.Label + "}"
+		return wrap(4, "%{"+n.Label+"}") // ThrowExpr is an alternative of LabeledExpr in pigeon.peg
 	}
 	panic("bad kind")
 }
@@ -671,4 +671,58 @@ func WellFormed(rules []*Rule) bool {
 		}
 	}
 	return true
+}
+
+// ---------- front-end AST as an S-expression for the Gen model (node ids on flag-carrying kinds) ----------
+func (n *Node) AstSexp() string {
+	kids := func() string {
+		parts := make([]string, len(n.Kids))
+		for i, k := range n.Kids {
+			parts[i] = k.AstSexp()
+		}
+		return strings.Join(parts, " ")
+	}
+	switch n.K {
+	case KLit:
+		return fmt.Sprintf("(lit %s %s)", hx(n.Lit), b01(n.IC))
+	case KCls:
+		c := ast.NewCharClassMatcher(ast.Pos{}, n.Cls)
+		cls := make([]string, len(c.UnicodeClasses))
+		for i, u := range c.UnicodeClasses {
+			cls[i] = hx(u)
+		}
+		return fmt.Sprintf("(cls %s (chars %s) (ranges %s) (classes %s) %s %s)", hx(n.Cls), ints(c.Chars), ints(c.Ranges),
+			strings.Join(cls, " "), b01(c.IgnoreCase), b01(c.Inverted))
+	case KAny:
+		return "(any)"
+	case KSeq, KAlt:
+		return fmt.Sprintf("(%s %d %s)", n.K, n.ID, kids())
+	case KStar, KPlus, KOpt, KAnd, KNot:
+		return fmt.Sprintf("(%s %s)", n.K, kids())
+	case KLab:
+		return fmt.Sprintf("(lab %s %s)", hx(n.Label), kids())
+	case KAct:
+		return fmt.Sprintf("(act %d %s %s)", n.ID, hx(fmt.Sprintf("{ return blk(c, %d) }", n.Cid)), kids())
+	case KAndC, KNotC, KStC:
+		return fmt.Sprintf("(%s %s)", n.K, hx(fmt.Sprintf("{ return blk(c, %d) }", n.Cid)))
+	case KRef:
+		return fmt.Sprintf("(ref %d %s)", n.ID, hx(n.Ref))
+	case KRec:
+		ls := make([]string, len(n.Labels))
+		for i, l := range n.Labels {
+			ls[i] = hx(l)
+		}
+		return fmt.Sprintf("(rec %d %s %s)", n.ID, kids(), strings.Join(ls, " "))
+	case KThrow:
+		return fmt.Sprintf("(throw %s)", hx(n.Label))
+	}
+	panic("bad kind")
+}
+
+func AstGrammarSexp(rules []*Rule) string {
+	parts := make([]string, len(rules))
+	for i, r := range rules {
+		parts[i] = fmt.Sprintf("(rule %s %s %s)", hx(r.Name), hx(r.Display), r.Expr.AstSexp())
+	}
+	return "(ast " + strings.Join(parts, " ") + ")"
 }
